@@ -36,6 +36,7 @@ func runC14(w *World, r *Report) {
 	hrCfgManagedProtocol(w, r, "R8")
 	hrWildcardConstant(w, r, "R2")
 	hrManageSendsEverything(w, r, "R5")
+	hrParamSegmentNonEmpty(w, r, "R3")
 	hrRevertUnmanageFlags(w, r, "R5")
 	hrLookupDeclaredWalksEveryPart(w, r, "R3")
 	// what the engine matches must be what was registered: the engine-side matchers of C03 (flows) and C13 (policies)
